@@ -42,6 +42,24 @@ func init() {
 		return sc
 	})
 
+	// skew:<n>:<steps>:<skew>:<silentAt>:<k>: honest validator n-1 has a clock that is <skew> ahead and stops for good at
+	// seed position <silentAt>; validator n-2 lies: its first <k> clock readings are ahead by <skew> as well, later ones
+	// are on time. The median of a later round is then lower than that of an earlier one.
+	sched.RegisterScenario("skew", func(p []string) *sched.Scenario {
+		at := func(i int) int { v, _ := strconv.Atoi(p[i]); return v }
+		n, steps, skew, silentAt, k := at(1), at(2), int64(at(3)), at(4), at(5)
+		sc := sched.StaticSilent(n, steps, n-1, silentAt)
+		sc.Cfg.Skew = map[int]int64{n - 1: skew}
+		liar := n - 2
+		sc.Cfg.Liars = map[int]func(int) int64{liar: func(tick int) int64 {
+			if tick <= k {
+				return sim.BaseTime + int64(tick)*10 + skew
+			}
+			return sim.BaseTime + int64(tick)*10 + int64(liar)
+		}}
+		return sc
+	})
+
 	checks["C18"] = func(args []string) int {
 		th := ev.Tier() == "thorough"
 		mons := []string{"C01", "C18"}
@@ -63,6 +81,15 @@ func init() {
 			}
 		}
 		add("otherwise honest liar, one lying event: event k=1..24 x 6 values x {n=4,n=5}", single)
+		var skews []sched.Item
+		for _, silentAt := range []int{12, 16, 20, 24, 28, 32} {
+			for _, k := range []int{4, 6, 8, 10, 12, 14, 16} {
+				for _, sk := range []int{1000, -1000} {
+					skews = append(skews, sched.Item{Scenario: fmt.Sprintf("skew:4:70:%d:%d:%d", sk, silentAt, k), Mode: "s3", Mons: mons, Suffix: 40})
+				}
+			}
+		}
+		add("an honest validator whose clock is 1000 ahead / behind stops at position p (6 values); the liar's first k readings (7 values) are off by the same amount, later ones on time: medians of consecutive rounds go down / up", skews)
 		for _, ci := range []int{0, 5} {
 			name := fmt.Sprintf("liar:4:56:1:%d", ci)
 			stride := 3
